@@ -201,8 +201,8 @@ PROPS = {
         'assumptions': ['R2: in-range is relative to the signedness the key table gives the key; R12: size codes 1..5'],
     },
     'C14': {
-        'source_transfer': ['TransferCfg', 'TransferValget'],
-        'source_tie': ['CfgKeyData', 'CfgItem', 'Types', 'Valget'],
+        'source_transfer': ['TransferCfg', 'TransferValget', 'TransferValset'],
+        'source_tie': ['CfgKeyData', 'CfgItem', 'Types', 'Valget', 'Valset'],
         'jobs': [{'component': 'key', 'profile': 'codec', 'quick': 750, 'thorough': 5000},
                  {'component': 'valset', 'profile': 'valget', 'quick': 450, 'thorough': 3000}],
         'exhaustive_note': 'size code 0..7 x available value bytes 0..9 x 4 value patterns x reserved bits set/clear',
